@@ -117,12 +117,21 @@ that returns bytes returns record `i` of the verified contents of block `b`. -/
 def ReaderNeverServesOtherBlock (rb : (Nat → Load) → St → Nat → St × RB) : Prop :=
   ∀ (load : Nat → Load) (ops : List Op), ServesOnlyRequestedBlock (rb load) load St.init ops
 
-/-- C18.5 the full statement is FALSE for the code as it is: `loadBlockUsingBuffer` reads the chunk into the re-used
-file buffer before the checksum is compared, dictionary words are slices of that buffer, and a failed attempt
-leaves `isBlockLoaded`/`currBlockNum` pointing at the block loaded before.  Load block 0, fail on block 1, ask for
-block 0 again: the load is skipped and the clobbered buffer is served.  (Replayed on the real reader: kernel suite
-`segreader`, known finding `segreader/stale-buffer-served-after-failed-load/dict`.) -/
-theorem reader_never_serves_other_block_counterexample : ¬ ReaderNeverServesOtherBlock readBlock := by
+/-- C18.5 the FULL statement holds for the code as it is: `readBlock` clears `isBlockLoaded` when the load fails
+(repair c18-1), so whatever a failed attempt leaves in the re-used buffers is never served — the next request for
+any block reads it again.  For every load behaviour (every file, damage, decoder, buffers clobbered by failed
+attempts included) and EVERY call sequence.  The statement order of `readBlock` is tied to the source by the
+fact `readBlock.order`. -/
+theorem reader_never_serves_other_block : ReaderNeverServesOtherBlock readBlock := by
+  intro load ops
+  exact Lemmas.C18E.run_spec (Lemmas.C18E.readBlock_good load) ops St.init (Lemmas.C18E.inv_init load)
+
+/-- C18.5 (Old) the full statement was FALSE before the repair: `loadBlockUsingBuffer` reads the chunk into the
+re-used file buffer before the checksum is compared, dictionary words are slices of that buffer, and a failed
+attempt left `isBlockLoaded`/`currBlockNum` pointing at the block loaded before.  Load block 0, fail on block 1,
+ask for block 0 again: the load was skipped and the clobbered buffer served.  (Replayed on the real reader before
+the repair: kernel suite `segreader`, class `segreader/stale-buffer-served-after-failed-load/dict`.) -/
+theorem reader_never_serves_other_block_old_counterexample : ¬ ReaderNeverServesOtherBlock readBlockOld := by
   intro h
   let load : Nat → Load := fun b => if b = 1 then .fail (fun _ => [[9]]) else .ok [[1]]
   have hg := h load [.ld 0, .ld 1, .rd 0 0] 2 0 0 [9] rfl rfl
@@ -133,31 +142,23 @@ theorem reader_never_serves_other_block_counterexample : ¬ ReaderNeverServesOth
   subst this
   simp at hi
 
-/-- C18.5 (partial, guard = `noStaleReturn`: the sequence never asks for the block recorded as loaded after a
-failed attempt on another block — what the search path does: it walks the blocks of a segment once per reader).
-For EVERY load behaviour, buffers clobbered by failed attempts included, every record served for block `b` is a
-record of the verified contents of block `b`.  The statement order of `readBlock` (error check, THEN
-`currBlockNum = blockNum`) is what the proof rests on; it is tied to the source by the fact `readBlock.order`. -/
-theorem reader_never_serves_other_block_partial (load : Nat → Load) (ops : List Op)
+/-- C18.5 (Old, partial) what did hold before the repair: under the guard `noStaleReturn` (the sequence never asks
+for the block recorded as loaded after a failed attempt on another block — what the search path does), for every
+load behaviour. -/
+theorem reader_never_serves_other_block_old_partial (load : Nat → Load) (ops : List Op)
     (hguard : noStaleReturn load St.init false ops = true) :
-    ServesOnlyRequestedBlock (readBlock load) load St.init ops :=
+    ServesOnlyRequestedBlock (readBlockOld load) load St.init ops :=
   Lemmas.C18E.guarded_run load ops St.init false (by intro h; simp [St.init] at h) hguard
 
-/-- C18.5 without a guard on the calls: if failed attempts leave the served buffers alone (zstd blocks whose
-decompression buffer is not exchanged; never true for dictionary blocks), ALL call sequences are safe. -/
-theorem reader_never_serves_other_block (load : Nat → Load) (hkeep : FailKeeps load) (ops : List Op) :
-    ServesOnlyRequestedBlock (readBlock load) load St.init ops :=
-  Lemmas.C18E.run_spec (Lemmas.C18E.readBlock_good hkeep) ops St.init (Lemmas.C18E.inv_init load)
+/-- C18.5 (Old) … and without a guard on the calls only when failed attempts left the served buffers alone. -/
+theorem reader_never_serves_other_block_old_of_failKeeps (load : Nat → Load) (hkeep : FailKeeps load) (ops : List Op) :
+    ServesOnlyRequestedBlock (readBlockOld load) load St.init ops :=
+  Lemmas.C18E.run_spec (Lemmas.C18E.readBlockOld_good hkeep) ops St.init (Lemmas.C18E.inv_init load)
 
-/-- C18.5 with the proposed repair (`isBlockLoaded = false` on a failed load) the FULL statement holds. -/
-theorem reader_never_serves_other_block_fixed : ReaderNeverServesOtherBlock readBlockFixed := by
-  intro load ops
-  exact Lemmas.C18E.run_spec (Lemmas.C18E.readBlockFixed_good load) ops St.init (Lemmas.C18E.inv_init load)
-
-/-- C18.6 why the ORDER inside `readBlock` matters: if the block number is recorded before the error check
-(seeded change), even a reader whose failed attempts leave the buffers alone, on a call sequence that satisfies
-the guard, serves block 0's record as a record of the damaged block 1 (probe, then read — what the filter path
-does for every block). -/
+/-- C18.6 why the ORDER inside `readBlock` mattered in the old code: with the block number recorded before the
+error check and `isBlockLoaded` left alone (seeded change on the old code), even a reader whose failed attempts
+leave the buffers alone, on a call sequence that satisfies the guard, serves block 0's record as a record of the
+damaged block 1 (probe, then read — what the filter path does for every block). -/
 theorem record_before_check_counterexample :
     ¬ (∀ (load : Nat → Load), FailKeeps load → ∀ ops : List Op, noStaleReturn load St.init false ops = true →
         ServesOnlyRequestedBlock (readBlockEarly load) load St.init ops) := by
@@ -225,7 +226,7 @@ theorem timereader_eof_counterexample :
   have : load 1 = .eof := rfl
   rw [this] at hc; cases hc
 
-/-- non-vacuity of the guard: a sequence over a file with a damaged block 1 that probes and reads the damaged
+/-- non-vacuity of the guard of the Old theorem: a sequence over a file with a damaged block 1 that probes and reads the damaged
 block and later comes back to block 0 after another successful load satisfies it -/
 example : noStaleReturn (fun b => if b = 1 then Load.fail (fun _ => [[9]]) else Load.ok [[b]]) St.init false
     [.ld 0, .pr 1, .rd 1 0, .rd 2 0, .rd 0 0] = true := by decide
